@@ -24,7 +24,7 @@ META = {
     "explanation": "Real Block.deserialize + CoinState.add_block on a valid block's encoding with one byte replaced by a symbolic value "
                    "(every position; groups of positions per obligation) and on every proper prefix.",
     "technique": "CrossHair symbolic execution of the decoders and full validation on altered encodings (byte value symbolic, position enumerated)",
-    "bounds": "two block shapes (reward only; reward + one 1-input 2-output spend); single-byte alterations; all truncation points",
+    "bounds": "two block shapes (reward only; reward + one 1-input 2-output spend), thorough adds reward + a 2-input spend + a second spend; single-byte alterations; all truncation points",
     "outside": "alterations of two or more bytes at once; other block shapes",
     "stubs": ["lazy-table hash oracles for sha256d/blake2/scrypt (collision-free on the run)", "ideal signatures", "chain-sample oracle",
               "PyMap / PyBytesIO"],
@@ -44,10 +44,13 @@ def _make(W: World, shape: str):
         idealsig._SIG_COUNTER = 0
     pv = [50, 60, 70, 80]
     pre = W.state(pv)
-    cb = W.env.coinbase(W.h, [dt.Output(1_000_000_003 if shape == "spend" else 1_000_000_000, W.keys[3])], None, data=b"hi")
+    cb = W.env.coinbase(W.h, [dt.Output(1_000_000_003 if shape in ("spend", "two-spends") else 1_000_000_000, W.keys[3])], None, data=b"hi")
     txs = [cb]
     if shape == "spend":
         txs.append(W.make_tx(None, [(0, 0, 0)], [(30, 1), (17, 2)], pv, tok(TX, 99), None))
+    if shape == "two-spends":
+        txs.append(W.make_tx(None, [(0, 0, 0), (2, 0, 0)], [(100, 1), (17, 2)], pv, tok(TX, 99), None))
+        txs.append(W.make_tx(None, [(1, 1, 0)], [(60, 2)], pv, tok(TX, 99), None))
     good = W.candidate(pre, txs, 3000, bid=None, nonce=5)
     return pre, good
 
@@ -162,7 +165,7 @@ def obligations(tier: str, known: List[str]) -> List[Ob]:
     thorough = tier == "thorough"
     T = 1500 if thorough else 600
     obs: List[Ob] = []
-    for shape in ("reward-only", "spend"):
+    for shape in (("reward-only", "spend", "two-spends") if thorough else ("reward-only", "spend")):
         L = length_of(shape)
         obs.append(Ob("baseline[%s]" % shape, C_1, "baseline", {"shape": shape}, timeout=T))
         step = 4
